@@ -162,6 +162,10 @@ func c20Cases(run *core.Run) []cliCase {
 	}
 	add("inplace-empty", []treeFile{{Path: "e.js", Data: ""}}, nil, "-o", "e.js", "e.js")
 	add("inplace-invalid", []treeFile{{Path: "bad.js", Data: "var a = ;;; ) ( \n"}}, nil, "-o", "bad.js", "bad.js")
+	add("inplace-invalid-html", []treeFile{{Path: "p.html", Data: c19Invalid["html"]}}, nil, "-o", "p.html", "p.html")
+	add("inplace-invalid-html-dir", []treeFile{{Path: "w/p.html", Data: c19Invalid["html"]}, {Path: "w/q.css", Data: css}}, nil, "-r", "-o", "w/", "w/")
+	add("sync-onto-itself-absolute", []treeFile{{Path: "site/a.js", Data: js}, {Path: "site/readme.txt", Data: "plain  text"}, {Path: "site/sub/i.png", Data: "\x89PNG\r\n"}}, nil, "-s", "-r", "-o", ".", "$ROOT/site")
+	add("sync-onto-itself-dotslash", []treeFile{{Path: "site/a.js", Data: js}, {Path: "site/readme.txt", Data: strings.Repeat("plain text\n", 5000)}}, nil, "-s", "-r", "-o", "site/", "./site/")
 	add("inplace-many", []treeFile{{Path: "a.js", Data: js}, {Path: "b.css", Data: css}, {Path: "c.html", Data: html}, {Path: "bad.json", Data: "{ \"a\" : }"}}, nil,
 		"-o", ".", "a.js", "b.css", "c.html", "bad.json")
 	add("inplace-recursive-dot", []treeFile{{Path: "a.js", Data: js}, {Path: "sub/b.css", Data: css}, {Path: "sub/deep/c.html", Data: html}, {Path: "sub/note.txt", Data: "plain"}, {Path: ".hidden.js", Data: js}}, nil,
@@ -297,7 +301,7 @@ func runStrace(root, logPath string, inject []string, stdin string, args []strin
 		sargs = append(sargs, "-e", "inject="+in)
 	}
 	sargs = append(sargs, bin)
-	sargs = append(sargs, args...)
+	sargs = append(sargs, cliArgsAt(root, args)...)
 	cmd := exec.Command("strace", sargs...)
 	cmd.Dir = root
 	cmd.Env = append(os.Environ(), "GOMAXPROCS=4")
@@ -713,7 +717,7 @@ func runStraceP(root, logPath string, inject []string, c cliCase, _ *[]string) s
 		}
 	}
 	sargs = append(sargs, bin)
-	sargs = append(sargs, c.Args...)
+	sargs = append(sargs, cliArgsAt(root, c.Args)...)
 	cmd := exec.Command("strace", sargs...)
 	cmd.Dir = root
 	cmd.Env = append(os.Environ(), "GOMAXPROCS=4")
